@@ -1,3 +1,98 @@
 import Driver.Common
-/- stub: model driver for C03 not built yet -/
-def main : IO Unit := Driver.lineLoop (fun _ => "unimplemented")
+import ThriftVerif.Lib.Walker
+import ThriftVerif.Generated.C03Grammar
+
+/-
+  tv_c03: one line per op.
+    P <flags> <hex bytes>   ->  fail | T<n>:<hash> N<m>:<hash> <walk outcome>
+  flags: 1 = also walk (AST dump), 0 = tokens and tree only.
+-/
+namespace Driver.C03
+open Peg Walker
+
+def M : Nat := 1099511627689
+@[inline] def mix (h x : Nat) : Nat := (h * 1000003 + x + 1) % M
+
+def tokHash (ts : List Tok) : Nat × Nat :=
+  ts.foldl (fun (hc : Nat × Nat) t => (mix (mix (mix hc.1 t.rule) t.b) t.e, hc.2 + 1)) (7, 0)
+
+def treeHash : T → Nat → Nat × Nat → Nat × Nat
+  | .nil, _, acc => acc
+  | .node r b e up next, d, (h, c) =>
+    treeHash next d (treeHash up (d + 1) (mix (mix (mix (mix h d) r) b) e, c + 1))
+
+def hx (b : Bytes) : String := VL.hexEncode b
+
+def annsStr (a : Anns) : String :=
+  s!"A{a.length}" ++ String.join (a.map fun (k, vs) => s!" {hx k} L{vs.length}" ++ String.join (vs.map fun v => " " ++ hx v))
+
+def tyStr : Ty → String
+  | .none => "_"
+  | .mk n k v c a => s!"t {hx n} {tyStr k} {tyStr v} {hx c} {annsStr a}"
+
+partial def cvStr : CV → String
+  | .dbl t => "D" ++ hx t
+  | .int v => s!"i{v}"
+  | .lit s => "l" ++ hx s
+  | .ident s => "n" ++ hx s
+  | .list xs => s!"[{xs.length}" ++ String.join (xs.map fun x => " " ++ cvStr x)
+  | .map kvs => "{" ++ s!"{kvs.length}" ++ String.join (kvs.map fun (k, v) => " " ++ cvStr k ++ " " ++ cvStr v)
+
+def fieldStr (f : Field) : String :=
+  let d := match f.dflt with | none => "~" | some v => cvStr v
+  s!"f{f.id} {hx f.name} {f.req} {tyStr f.ty} {d} {annsStr f.anns} {hx f.comments}"
+
+def listStr {α} (tag : String) (f : α → String) (l : List α) : String :=
+  s!"{tag}{l.length}" ++ String.join (l.map fun x => " " ++ f x)
+
+def slikeStr (s : StructLike) : String :=
+  s!"sl {s.category} {hx s.name} {listStr "F" fieldStr s.fields} {annsStr s.anns} {hx s.comments}"
+
+def fnStr (f : Function) : String :=
+  s!"fn {hx f.name} {VL.boolStr f.oneway} {VL.boolStr f.void} {tyStr f.ty} {listStr "G" fieldStr f.args} {listStr "W" fieldStr f.throws} {annsStr f.anns} {hx f.comments}"
+
+def thriftStr (t : Thrift) : String :=
+  " ".intercalate [
+    listStr "I" hx t.includes,
+    listStr "P" hx t.cppIncludes,
+    listStr "N" (fun (n : Namespace) => s!"{hx n.lang} {hx n.name} {annsStr n.anns}") t.namespaces,
+    listStr "T" (fun (d : Typedef) => s!"{tyStr d.ty} {hx d.alias} {annsStr d.anns} {hx d.comments}") t.typedefs,
+    listStr "C" (fun (c : Constant) => s!"{hx c.name} {tyStr c.ty} {cvStr c.value} {annsStr c.anns} {hx c.comments}") t.constants,
+    listStr "E" (fun (e : Enum) => s!"{hx e.name} " ++
+        listStr "V" (fun (v : EnumValue) => s!"{hx v.name} {v.value} {annsStr v.anns} {hx v.comments}") e.values
+        ++ s!" {annsStr e.anns} {hx e.comments}") t.enums,
+    listStr "S" slikeStr t.structs,
+    listStr "U" slikeStr t.unions,
+    listStr "X" slikeStr t.exceptions,
+    listStr "V" (fun (s : Service) => s!"sv {hx s.name} {hx s.ext} {listStr "F" fnStr s.functions} {annsStr s.anns} {hx s.comments}") t.services]
+
+def handle (flags : String) (bytes : Bytes) : String :=
+  let g := Generated.C03.grammar
+  let ids := Generated.C03.ids
+  let rs := Utf8.decode bytes
+  match parseRunes g rs with
+  | .oof => "oof"
+  | .fail => "fail"
+  | .ok _ _ t =>
+    let (th, tc) := tokHash (tokens t)
+    let pt := prune t
+    let (nh, nc) := treeHash pt 0 (7, 0)
+    let head := s!"T{tc}:{th} N{nc}:{nh}"
+    if flags = "0" then head else
+    match walk ids (rs ++ [1114112]).toArray pt with
+    | .ok a => head ++ " ok " ++ thriftStr a
+    | .err => head ++ " err"
+    | .panic => head ++ " panic"
+    | .crash => head ++ " crash"
+
+def handleLine (line : String) : String :=
+  match VL.toks line with
+  | ["P", flags, h] =>
+    match VL.hexDecode h with
+    | none => "bad-op"
+    | some b => handle flags b
+  | _ => "bad-op"
+
+end Driver.C03
+
+def main : IO Unit := Driver.lineLoop Driver.C03.handleLine
